@@ -1,14 +1,15 @@
 #!/bin/bash
 # neutral_check.sh <id> [tier]: run the owning check against a copy of /repo with a NEUTRAL change applied (must stay exit 0).
 set -u
+VROOT=$(cd "$(dirname "$0")/.." && pwd)
 id=$1; tier=${2:-quick}
-d=/verif/seeded/neutral/$id
+d=$VROOT/seeded/neutral/$id
 prop=$(python3 -c "import json;print(json.load(open('$d/meta.json'))['property'])")
 W=$(mktemp -d /tmp/verif-seedrepo-XXXXXX); trap 'rm -rf "$W"' EXIT
 rsync -a /repo/ "$W"/
 (cd "$W" && git apply "$d/patch.diff") || { echo "patch does not apply"; exit 2; }
-(cd "$W" && VERIF_REPO="$W" /verif/tools/baseline.sh >/dev/null 2>"$W/.bl"; tail -1 "$W/.bl")
-cd /verif
+(cd "$W" && VERIF_REPO="$W" "$VROOT"/tools/baseline.sh >/dev/null 2>"$W/.bl"; tail -1 "$W/.bl")
+cd "$VROOT"
 out=$(VERIF_REPO="$W" VERIF_SEED=${VERIF_SEED:-1} ./bin/verif check "$prop" --tier "$tier" 2>&1); rc=$?
 echo "$out" | grep -E "^(VIOLATION|KNOWN|RESULT|TROUBLE)" | cut -c1-300
 echo "$out" | grep -A3 "^VIOLATION" | grep -E "oracle=" | cut -c1-200 | head -5
